@@ -15,15 +15,17 @@ import progs
 import events
 import specdiff
 
-THEOREM_MODULES = ["Yarel.Props.C06", "Yarel.Props.SpecScoping"]
-REQUIRED_THEOREMS = ["resolveLocal_is_innermost_preceding", "pushLocal_fresh", "makeClosure_captures_cells", "write_then_read_shared",
+THEOREM_MODULES = ["Yarel.Props.C06", "Yarel.Props.SpecScoping", "Yarel.Props.FnsTie.Resolver"]
+REQUIRED_THEOREMS = ["resolve_local_tie", "resolve_local_innermost", "add_upvalue_spec", "add_upvalue_tie", "resolveLocal_is_innermost_preceding", "pushLocal_fresh", "makeClosure_captures_cells", "write_then_read_shared",
                      "write_does_not_disturb_other", "truncateEnv_keeps_cells", "open_sorted", "capture_shares", "close_exact", "refines_cells", "refines_cells_run"]
 LEVEL = "proof"
 ASSUMPTIONS = [
     "mechanism model Yarel/Model/Upvalues.lean transcribes capture_upvalue/close_upvalues (tie: replay of real capture/close events)",
     "the discipline hypothesis of refines_cells (no truncation below an open cell without closing it) is a property of the COMPILER's output; "
     "it is checked per program by C04's verifier and by the differential runs here, not proved",
-    "name resolution of the real compiler is tied to the reference interpreter by differential runs only",
+    "name resolution: Compiler::resolve_local and Compiler::add_upvalue are translated from compiler.rs on every run and proved equal to the reference "
+    "parser's resolveLocalIn/addUpvalueIn (Props/FnsTie/Resolver.lean); the walk over enclosing functions (resolve_upvalue) and the scope bookkeeping "
+    "(begin/end scope, declare/define) are tied by differential runs and by the resolution grid only",
 ]
 PROFILES = ["closures", "control", "classes", "exceptions", "fibers", "iteration"]
 
@@ -41,6 +43,12 @@ def wrap_variants(body_lines):
 
 
 BODIES = [
+    # a `return` through a finally block: the variables of the still-running function stay shared between the function, the closures
+    # made before the return, and the finally block
+    (["fn inner() {", "    var log = \"a\";", "    var count = 1;", "    fn note(s) { log = log + \",\" + s; count = count + 1; }",
+      "    try {", "        return [|| log, || count];", "    } finally {", "        note(\"b\");", "        print(\"finally sees \" + log);", "        print(count);",
+      "        log = log + \",c\";", "        count = count + 1;", "    }", "}", "var got = inner();", "print(got[0]());", "print(got[1]());"],
+     ["finally sees a,b", "2", "a,b,c", "3"]),
     # every block-introducing construct has its own scope (declarations do not leak, may shadow, and later assignments hit the outer one)
     (["var tag = \"outer\";", "var v = \"outer v\";", "var get = nil;",
       "try { var t1 = 1; } finally { var tag = \"finally-local\"; var v = \"finally v\"; get = || v; tag = tag + \"!\"; }",
